@@ -42,6 +42,9 @@ struct Case {
     refuse_at: Option<u8>,
 }
 
+/// polls of any task, visible to watchdog threads
+static ACTIVITY: std::sync::atomic::AtomicU64 = std::sync::atomic::AtomicU64::new(0);
+
 struct Counted<F> {
     f: Pin<Box<F>>,
     polls: Rc<Cell<u64>>,
@@ -49,6 +52,7 @@ struct Counted<F> {
 impl<F: Future> Future for Counted<F> {
     type Output = F::Output;
     fn poll(mut self: Pin<&mut Self>, cx: &mut Context<'_>) -> Poll<F::Output> {
+        ACTIVITY.fetch_add(1, std::sync::atomic::Ordering::Relaxed);
         self.polls.set(self.polls.get() + 1);
         self.f.as_mut().poll(cx)
     }
@@ -396,8 +400,15 @@ fn run_case(c: &Case) -> (Vec<Alarm>, Vec<String>, u64, u64) {
         let fin = std::sync::Arc::new(std::sync::atomic::AtomicBool::new(false));
         let fin2 = fin.clone();
         let wd = std::thread::spawn(move || {
-            let t = Instant::now();
+            // a stall, not a slow transfer: no task was polled for the whole limit
+            let mut t = Instant::now();
+            let mut seen = ACTIVITY.load(std::sync::atomic::Ordering::Relaxed);
             while !fin2.load(std::sync::atomic::Ordering::SeqCst) {
+                let now = ACTIVITY.load(std::sync::atomic::Ordering::Relaxed);
+                if now != seen {
+                    seen = now;
+                    t = Instant::now();
+                }
                 if t.elapsed() > Duration::from_secs(stall_limit) {
                     sig.stop();
                     sig.wakeup();
